@@ -26,6 +26,7 @@ func init() {
 }
 
 func runC40(c *eng.Ctx) {
+	defer runC40Watch(c)
 	p := c.P
 	Q := "storage/remote:QueueManager"
 	// ---- R1 resharding: stop (flush) before start ----
